@@ -71,15 +71,17 @@ def nvec(kind, d, m):
     return {"state": d * d, "povm": m * d * d, "gate": d ** 4, "mprocess": m * d ** 4}[kind]
 
 
-def build(kind, c, sv, m, para, order, eps):
+def build(kind, c, sv, m, para, order, eps, strict=False):
     from quara.objects.state import State
     from quara.objects.povm import Povm
     from quara.objects.gate import Gate
     from quara.objects.mprocess import MProcess
     d = c.dim; dd = d * d
     sv = np.array(sv, dtype=np.float64)
-    kw = dict(is_physicality_required=False, on_para_eq_constraint=para, mode_proj_order=order,
+    kw = dict(is_physicality_required=bool(strict), on_para_eq_constraint=para, mode_proj_order=order,
               eps_proj_physical=None if eps == "default" else eps)
+    if strict:      # non-default object configuration (only meaningful for inputs that pass quara's own validation)
+        kw.update(is_estimation_object=False)
     if kind == "state":
         return State(c, sv.copy(), **kw)
     if kind == "povm":
@@ -213,6 +215,10 @@ class Run:
     pass
 
 
+class ArgumentWritten(Exception):
+    pass
+
+
 def to_sv(kind, obj_or_vec, level):
     if level == "obj":
         return np.array(obj_or_vec.to_stacked_vector(), dtype=float).copy()
@@ -230,18 +236,42 @@ def impl_run(case, c, hist=True, order=None, level=None, obj=None):
     obj: an object a previous call was made on (the routines keep no state: a second call must give the same answer)"""
     kind, m, para, eps, mi = case["kind"], case["m"], case["para"], case["eps"], case["max_iter"]
     order = order or case["order"]; level = level or case["level"]
-    o = obj if obj is not None else build(kind, c, case["sv"], m, para, order, eps)
+    mism = bool(case.get("flagmismatch")) and level == "var"
+    if obj is not None:
+        o = obj
+    elif case.get("strict"):
+        try:
+            o = build(kind, c, case["sv"], m, para, order, eps, strict=True)
+        except Exception:           # quara's own validation rejects the (rounded) point: default configuration instead
+            o = build(kind, c, case["sv"], m, para, order, eps)
+    else:
+        # flagmismatch: the object's own on_para_eq_constraint is the OPPOSITE of the explicit argument of the variable-level call
+        o = build(kind, c, case["sv"], m, (not para) if mism else para, order, eps)
     R = Run(); R.o = o; R.order = order; R.level = level
     R.cfg_before = config_of(o)
     buf = io.StringIO()
     var = None
     kwf = {} if mi == "default" else {"max_iteration": mi}
-    with contextlib.redirect_stdout(buf):
-        if level == "obj":
-            res = o.calc_proj_physical(is_iteration_history=hist, **kwf)
-        else:
-            var = o.to_var(); R.var_in = var.copy()
-            res = o.calc_proj_physical_with_var(var, on_para_eq_constraint=para, is_iteration_history=hist, **kwf)
+    try:
+      with contextlib.redirect_stdout(buf):
+          if level == "obj":
+              res = o.calc_proj_physical(is_iteration_history=hist, **kwf)
+          else:
+              if mism:
+                  var = np.array(type(o).convert_stacked_vector_to_var(c, np.array(case["sv"], dtype=np.float64), on_para_eq_constraint=para), dtype=np.float64)
+              else:
+                  var = o.to_var()
+              view = case.get("argview", "plain")
+              if view == "strided":       # same numbers, non-contiguous memory
+                  big = np.full(2 * len(var), 1e300); big[::2] = var; var = big[::2]
+              elif view == "readonly":    # a routine that writes into its argument raises here
+                  var = np.array(var); var.setflags(write=False)
+              R.var_in = np.array(var, dtype=float).copy()
+              res = o.calc_proj_physical_with_var(var, on_para_eq_constraint=para, is_iteration_history=hist, **kwf)
+    except ValueError as ex:
+        if "read-only" in str(ex):      # the routine wrote into the (read-only) array it was given
+            raise ArgumentWritten(str(ex))
+        raise
     R.warned = "exceeds the limit" in buf.getvalue()
     R.var_after = None if var is None else np.array(var, dtype=float)
     R.self_after = np.array(o.to_stacked_vector(), dtype=float)
@@ -421,7 +451,11 @@ def chk_run(ctx, case):
         if (st, code) != ("err", 1) or raised not in ("UnboundLocalError", "NameError"):
             ctx.violation(sub, site, "zero-fuel-branch", "max_iteration=0: implementation %s, model %s %s" % (raised, st, code), case)
         return
-    R = impl_run(case, c)
+    try:
+        R = impl_run(case, c)
+    except ArgumentWritten as ex:
+        ctx.violation(sub, site, "mutates-argument", "the routine writes into the variable array it is given (read-only view: %s)" % ex, case)
+        return
     K = R.K; n = len(R.X[0]); mdl = ctx.get_model()
     x0 = R.X[0]
     scale = max(float(np.linalg.norm(x0)), max(float(np.linalg.norm(v)) for v in R.P), max(float(np.linalg.norm(v)) for v in R.Q))
@@ -607,6 +641,13 @@ def chk_run(ctx, case):
         st["inf_ratio"] = max(st["inf_ratio"], max(r_eq, -lam, 0.0) / yard)
         st["p_ratio"] = max(st["p_ratio"], math.sqrt(R.cert["pp"]) / (1 + nx0))
 
+    # ---- argument view / explicit flag different from the object's own flag: same answer as the plain call, bit for bit
+    if case["level"] == "var" and (case.get("argview", "plain") != "plain" or case.get("flagmismatch")):
+        Rp = impl_run(dict(case, argview="plain", flagmismatch=False), c, hist=False)
+        if not np.array_equal(Rp.res_var, R.res_var):
+            ctx.violation(sub, site, "argument-form-changes-result", "argument view %s / object flag %s the explicit on_para_eq_constraint: result differs from the plain call by %.3e"
+                          % (case.get("argview"), "differs from" if case.get("flagmismatch") else "equals", float(np.abs(Rp.res_var - R.res_var).max())), case)
+
     # ---- is_iteration_history=False returns the same point
     R2 = impl_run(case, c, hist=False, obj=R.o)       # second call, on the SAME object, without history
     if not np.array_equal(R2.res_sv, R.res_sv) or R2.warned != R.warned:
@@ -614,6 +655,9 @@ def chk_run(ctx, case):
 
     nontriv = K >= 2 and not in_band and cert_ok
     lab = "%s/%s/%s/%s/%s" % (kind, case["level"], case["order"], case["gen"], outcome if mi >= 1000 else "fuel-edge")
+    if case["level"] == "var":
+        av = "run:arg:%s%s" % (case.get("argview", "plain"), "+flagmismatch" if case.get("flagmismatch") else "")
+        ctx.dist[av] = ctx.dist.get(av, 0) + 1
     ctx.count(sub, key=key, nontrivial=nontriv, label=lab)
     ctx.dist["run:psd-decisions:" + R.cert["how"]] = ctx.dist.get("run:psd-decisions:" + R.cert["how"], 0) + 1
     if in_band:
@@ -658,7 +702,8 @@ def gen_case(ctx, systems, level=None, order=None, gen=None, mi=None, kind=None,
         mi = "default" if rng.random() < 0.3 else 1000
     return {"kind": kind, "sys": list(sysm), "m": m, "para": rng.random() < 0.5, "order": order or rng.choice(["eq_ineq", "ineq_eq"]),
             "eps": eps, "max_iter": mi, "level": level or rng.choice(["obj", "var"]), "gen": gen,
-            "sv": [float(v) for v in sv], "sseed": rng.getrandbits(31)}
+            "sv": [float(v) for v in sv], "sseed": rng.getrandbits(31),
+            "argview": rng.choice(["plain", "plain", "strided", "readonly"]), "flagmismatch": rng.random() < 0.3}
 
 
 def sub_run(ctx):
@@ -699,7 +744,7 @@ def chk_agree(ctx, case):
     o = build(kind, c, case["sv"], m, para, "eq_ineq", eps)
     var = np.array(o.to_var(), dtype=float)
     x0 = np.array(type(o).convert_var_to_stacked_vector(c, var.copy(), on_para_eq_constraint=para), dtype=float)
-    base = dict(case, sv=[float(v) for v in x0])
+    base = dict(case, sv=[float(v) for v in x0], argview="plain", flagmismatch=False)
     runs = []
     for level in ("obj", "var"):
         for order in ("eq_ineq", "ineq_eq"):
@@ -834,7 +879,7 @@ def sub_physical(ctx):
             for which in (0, 1):
                 m = 1 if kind in ("state", "gate") else rng.choice([2, 3])
                 cases.append({"kind": kind, "sys": list(sysm), "m": m, "para": rng.random() < 0.5, "order": "eq_ineq", "eps": rng.choice(EPS), "max_iter": 1000,
-                              "level": "obj", "gen": "textbook-%d" % which, "sv": [float(v) for v in exact_physical(kind, B, m, which)], "sseed": 1})
+                              "level": "obj", "gen": "textbook-%d" % which, "sv": [float(v) for v in exact_physical(kind, B, m, which)], "sseed": 1, "strict": True})
             for _ in range(ctx.n(2, 12)):
                 m = 1 if kind in ("state", "gate") else rng.choice([2, 3, 4] if sysm == ("qubit", 1) else [2, 3])
                 rs = np.random.default_rng(rng.getrandbits(63))
